@@ -234,6 +234,21 @@ def handleGen (op : String) (args : List String) : Option String :=
     -- BytesToGUID then GUIDToBytes / CmpEFIGUID with itself
     let g := util.BytesToGUID (unhex h)
     some s!"{hex (util.GUIDToBytes g)} {util.CmpEFIGUID g g}"
+  | "gen.bootorder", [h] =>
+    -- efivarfs.bootorder.Unmarshal on a buffer holding `h` (fuel as in C18g_unmarshal): the names, joined by ","
+    let bs := unhex h
+    let r := efivarfs.bootorder.Unmarshal ((bs.length + 1) / 2 + 1) [] bs
+    some (if r.2.2.isNone then ",".intercalate r.1 else "err")
+  | "gen.padding", [n, blk] =>
+    -- authenticode.PaddingBytes(srcLen, blockSize): padLen, and whether the slice is padLen zero bytes
+    let r := authenticode.PaddingBytes (n.toInt?.getD 0) (blk.toInt?.getD 8)
+    some s!"{r.2} {r.1.length} {r.1.all (· == 0)}"
+  | "gen.readnull", [h] =>
+    -- util.ReadNullString on a reader holding `h` (fuel as in C17g_readNullString): the bytes returned, and how
+    -- many are left in the reader
+    let bs := unhex h
+    let r := util.ReadNullString (bs.length / 2 + 1) bs
+    some s!"{hex r.2} rest={r.1.length}"
   | "gen.varsign", [name, guid, attrs, tm, payload, sd] => some (genVarSign name guid attrs tm payload sd)
   | "gen.skipped", [] => some (toString (skipped.map (·.1)))
   | _, _ => none
